@@ -184,9 +184,9 @@ def _deriv(R, name, oracle, call, ref, st, explain=None, cols=None):
         return
     if D.size and float(np.max(np.abs(D))) > 1e-3:
         R.sig += 1
-    R.stat_max("max_err_" + name, e)
     R.stat_max("max_est_fd", est)
     if v == "ok":
+        R.stat_max("max_err_" + name, e)
         R.outcomes.add(f"{name}:exact" if D.size else f"{name}:empty")
         return
     why = None
@@ -496,21 +496,25 @@ def _check_s2s(case, R):
             ndot = (np.eye(3) - np.outer(nn, nn)) @ (v2 - v1) / L
             if name == "g_N_ddot":
                 pred = -ndot @ (v2 - v1)
+                R.stat_max("max_err_residual_prediction", abs(res.ravel()[0] - pred))
                 return "missing n_dot.(v2-v1)" if abs(res.ravel()[0] - pred) <= tol else None
             if name == "gamma_F_dot":
                 td = t_rates(u)
                 tt = np.array(con.t1t2(t, qloc(q)))
                 extra = np.cross(o2, -r2 * ndot) - np.cross(o1, r1 * ndot)
                 pred = -(td @ vrel + tt @ extra)
+                R.stat_max("max_err_residual_prediction", np.max(np.abs(res.ravel() - pred)))
                 return "missing n_dot and t_dot terms" if np.max(np.abs(res.ravel() - pred)) <= tol else None
             if name == "gamma_F_q":
                 E = t_q_error()
                 pred = np.array([vrel @ E[0], vrel @ E[1]])[:, cols]
+                R.stat_max("max_err_residual_prediction", np.max(np.abs(res - pred)))
                 return "t1t2_q1_q2 error" if np.max(np.abs(res - pred)) <= tol else None
             if name == "Wla_F_q":
                 E = t_q_error()
                 G = fd.affine_jac(lambda x: kin(t, q, x)[6], s.nu)  # 3 x nu
                 pred = (G.T @ (la_F[0] * E[0] + la_F[1] * E[1]))[:, cols]
+                R.stat_max("max_err_residual_prediction", np.max(np.abs(res - pred)))
                 return "t1t2_q1_q2 error" if np.max(np.abs(res - pred)) <= tol else None
             return None
 
